@@ -13,18 +13,18 @@ import (
 
 // C07 — clients survive arbitrary server output.
 //
-//   R-assert           no unguarded single-value assertion on data decoded from the server
-//   R-slice-guard      slicing a received line at a constant offset is dominated by a HasPrefix test of a literal
-//                      at least that long
-//   R-sticky-decoder   a loop around (*json.Decoder).Decode leaves the loop (or replaces the decoder) on a decode
-//                      error: decoder errors are sticky, `continue` spins forever
-//   R-close-once       a channel held in a struct field / pending table is closed at most once
-//   R-bounded-scanner  background stream readers do not use bufio.Scanner with its default 64 KiB token limit
-//   R-closed-recv      a receive from a channel that another function closes uses the comma-ok form
-//   R-lock-balanced    every mutex acquired on a client path is released on every path
-//   R-reconnect-paced  a loop repeating an HTTP exchange waits on a timer or consumes peer input on every trip
-//   R-once-complete    every path through a once-guarded publishing closure closes its latch
-//   R-send-vs-close    a send on a table channel that others close is made under the table's lock
+//	R-assert           no unguarded single-value assertion on data decoded from the server
+//	R-slice-guard      slicing a received line at a constant offset is dominated by a HasPrefix test of a literal
+//	                   at least that long
+//	R-sticky-decoder   a loop around (*json.Decoder).Decode leaves the loop (or replaces the decoder) on a decode
+//	                   error: decoder errors are sticky, `continue` spins forever
+//	R-close-once       a channel held in a struct field / pending table is closed at most once
+//	R-bounded-scanner  background stream readers do not use bufio.Scanner with its default 64 KiB token limit
+//	R-closed-recv      a receive from a channel that another function closes uses the comma-ok form
+//	R-lock-balanced    every mutex acquired on a client path is released on every path
+//	R-reconnect-paced  a loop repeating an HTTP exchange waits on a timer or consumes peer input on every trip
+//	R-once-complete    every path through a once-guarded publishing closure closes its latch
+//	R-send-vs-close    a send on a table channel that others close is made under the table's lock
 func init() { Registry["C07"] = checkC07 }
 
 func checkC07(c *Ctx) {
